@@ -152,7 +152,9 @@ def run(ch, idx, tier):
             detail["history"] = history
             violations.append({"cls": cls, "site": site, "detail": detail})
 
-    names = [n for n in PROJECTS if n in _CORPUS and n not in HEAVY]
+    from atomsim import corpus as _c
+
+    names = [n for n in PROJECTS if n in _CORPUS and n not in HEAVY] + _c.generated_names()
     if ch.flip("heavy", 0.02) and "tb" in _CORPUS:
         names = ["tb"]
     name = ch.pick("project", names)
